@@ -568,6 +568,7 @@ def histLine (s : HState) (toks : Array String) : HState × List Msg :=
                 match wp.bytes with
                 | none => []
                 | some out =>
+                  if out.length > 6000 then [] else   -- exact-arithmetic number parsing of every token: moderate sizes only
                   let r2 : Res := match Json.parse out with
                     | some doc => readJsonCfgS pnumS doc f.names
                         (f.cols.filterMap (fun c => if c.ty == .enum then some (c.name, c.vals) else none))
